@@ -14,13 +14,14 @@
 EXTENDS Diff, Universe
 FieldOrder == [k |-> 0, v |-> 0]   \* must stay the first definition of a root module (JsonValue.tla)
 
-CONSTANT Family          \* "list" | "nest" | "obj" | "keyed"
+CONSTANT Family          \* "list" | "list4" | "nest" | "obj" | "keyed"
 
 VARIABLE aux             \* [a, b, o, c, d]: the pair, the options, the target the diff is applied to, the diff
 mvars == <<doc, rest, status, aux>>
 
 Docs ==
   CASE Family = "list"  -> ScalArr(3, 2) \cup {Void}
+    [] Family = "list4" -> ScalArr(4, 2) \cup {Arr(<<N1, N2, N3, N1, N2>>), Arr(<<N3, N1, N2, N2, N1, N3>>), Void}
     [] Family = "nest"  -> {Arr(t) : t \in TuplesUpTo({N1, N2, EmptyArr, Arr(<<N1>>), Arr(<<N1, N2>>), O1("k0", N1), O1("k0", N2)}, 2)} \cup {Void, N1}
     [] Family = "obj"   -> ObjFam(2, {N1, N2, EmptyArr, Arr(<<N1>>), O1("k0", N1)}) \cup {Void, N1, Arr(<<N1>>)}
     [] Family = "keyed" -> Keyed(2) \cup {Arr(<<KObj(N1, Arr(<<N1>>)), KObj(N2, N1)>>), Arr(<<KObj(N1, Arr(<<N1, N2>>)), KObj(N2, N1)>>)}
@@ -33,7 +34,7 @@ OptSets ==
 InDomain(a, b, o) == o.merge => (NullFree(a) /\ NullFree(b))
 
 (* targets: a itself, b, and for the list family a few perturbations of a *)
-TargetsOf(a, b) == IF Family = "list" THEN {a, b} \cup Perturb(a) ELSE {a, b}
+TargetsOf(a, b) == IF Family \in {"list", "list4"} THEN {a, b} \cup Perturb(a) ELSE {a, b}
 
 Init ==
   \E a \in Docs, b \in Docs, o \in OptSets :
